@@ -6,6 +6,7 @@ mod util;
 mod c01;
 mod c04;
 mod c05;
+mod c09;
 mod c06;
 mod c14;
 mod c15;
@@ -53,6 +54,8 @@ fn main() {
         "c05" => c05::run(&o, deck),
         "c06" => c06::run(&o, deck),
         "c14" => c14::run(&o, deck),
+        "c09" => c09::run(&o, deck),
+        "c20" => c09::run_c20(&o, deck),
         "c15" => c15::run(&o, deck),
         "c16" => c16::run(&o, deck),
         "c17" => c17::run(&o, deck),
